@@ -110,6 +110,19 @@ pub trait ManagerDataCons<
         >;
 }
 
+/// With a verification hook installed, wait for `mutex` by going through
+/// [`oxidd_core::verif::yield_point()`] instead of parking the thread, such
+/// that a cooperative scheduler can run the current owner.
+#[cfg(oxidd_verif)]
+#[inline]
+fn verif_before_lock<T>(mutex: &Mutex<T>) {
+    if oxidd_core::verif::hook_installed() {
+        while mutex.is_locked() {
+            oxidd_core::verif::yield_point("mi:level-lock:blocked");
+        }
+    }
+}
+
 // === Manager & Edges =========================================================
 
 /// "Signals" used to communicate with the garbage collection thread
@@ -1041,6 +1054,8 @@ where
         };
         #[cfg(oxidd_verif)]
         oxidd_core::verif::yield_point("mi:try_remove_node:between-release-and-lock");
+        #[cfg(oxidd_verif)]
+        verif_before_lock(set);
         let mut set = set.lock();
 
         // Read the reference count again: Another thread may have created an
@@ -1074,7 +1089,11 @@ where
     fn num_inner_nodes(&self) -> usize {
         self.unique_table
             .iter()
-            .map(|level| level.lock().len())
+            .map(|level| {
+                #[cfg(oxidd_verif)]
+                verif_before_lock(level);
+                level.lock().len()
+            })
             .sum()
     }
 
@@ -1223,6 +1242,8 @@ where
     fn level(&self, no: LevelNo) -> Self::LevelView<'_> {
         #[cfg(oxidd_verif)]
         oxidd_core::verif::yield_point("mi:level:before-lock");
+        #[cfg(oxidd_verif)]
+        verif_before_lock(&self.unique_table[no as usize]);
         LevelView {
             store: self.store(),
             var_level_map: &self.var_level_map,
@@ -1236,6 +1257,8 @@ where
     unsafe fn level_unchecked(&self, no: LevelNo) -> Self::LevelView<'_> {
         #[cfg(oxidd_verif)]
         oxidd_core::verif::yield_point("mi:level:before-lock");
+        #[cfg(oxidd_verif)]
+        verif_before_lock(&self.unique_table[no as usize]);
         LevelView {
             store: self.store(),
             var_level_map: &self.var_level_map,
@@ -1301,6 +1324,8 @@ where
         for level in &self.unique_table {
             #[cfg(oxidd_verif)]
             oxidd_core::verif::yield_point("mi:gc:before-level-lock");
+            #[cfg(oxidd_verif)]
+            verif_before_lock(level);
             let mut level = level.lock();
             collected += level.len() as u32;
             // SAFETY: We prepared the garbage collection, hence there are no
@@ -1994,6 +2019,8 @@ where
     #[inline]
     fn next(&mut self) -> Option<Self::Item> {
         let mutex = self.it.next()?;
+        #[cfg(oxidd_verif)]
+        verif_before_lock(mutex);
         let level = self.level_front;
         self.level_front += 1;
         Some(LevelView {
@@ -2045,6 +2072,8 @@ where
 {
     fn next_back(&mut self) -> Option<Self::Item> {
         let mutex = self.it.next_back()?;
+        #[cfg(oxidd_verif)]
+        verif_before_lock(mutex);
         self.level_back -= 1;
         Some(LevelView {
             store: self.store,
